@@ -22,6 +22,8 @@ feats = ""
 mm = re.search(r"--features[ =]([A-Za-z0-9_,-]+)", head)
 if mm:
     feats = "--features " + mm.group(1)
+if "SEED_FEATURES" in os.environ:
+    feats = os.environ["SEED_FEATURES"]
 def suite():
     rc, out = sh("cargo test --offline 2>&1", WT)
     passed = sum(int(x) for x in re.findall(r"test result: \w+\. (\d+) passed", out))
